@@ -4,6 +4,7 @@ import (
 	"fmt"
 	"go/token"
 	"go/types"
+	"os"
 	"sort"
 	"strings"
 
@@ -330,6 +331,14 @@ func lexComparator(c *Ctx, less *ssa.Function) ([]string, bool, string) {
 
 // sameFieldOfTwo: x and y are the same projection of two different elements.
 func sameFieldOfTwo(a *FnA, x, y ssa.Value) (bool, string) {
+	// key(a) against key(b) where key can only be a projection (a field of its argument)
+	if ax, fx, ok1 := projectionCall(a.c, a.fn, x); ok1 {
+		if ay, fy, ok2 := projectionCall(a.c, a.fn, y); ok2 && fx == fy {
+			if ok, why := sameFieldOfTwo(a, ax, ay); ok {
+				return true, why + " (through the key function, field " + fx + ")"
+			}
+		}
+	}
 	dx, dy := collectionShape(a, x), collectionShape(a, y)
 	if dx == dy && a.Desc(x) != a.Desc(y) {
 		return true, "compares " + dx + " of the two elements"
@@ -470,6 +479,20 @@ func ruleMapRange(c *Ctx) []Obligation {
 							continue
 						}
 						callees, known := g.calleesOf(cc)
+						if !known && !cc.IsInvoke() && cc.StaticCallee() == nil {
+							// a function value that can only be one of the module's own functions
+							if ts, ok := g.resolveFuncValue(f, cc.Value, 0, map[ssa.Value]bool{}); ok && len(ts) > 0 {
+								all := true
+								for _, t := range ts {
+									if g.Sum[t] == nil {
+										all = false
+									}
+								}
+								if all {
+									callees, known = ts, true
+								}
+							}
+						}
 						if !known {
 							sc := cc.StaticCallee()
 							if sc != nil {
@@ -493,6 +516,13 @@ func ruleMapRange(c *Ctx) []Obligation {
 								continue // a helper whose only effect is m[k] = v with k the range key
 							}
 							if g.Reach(cal)[reg] {
+								// the summaries are flow-insensitive (a hook field that is nil in this use counts
+								// as callable): for a null test the paths of that implementation get the last word
+								if c.isNullImpl(cal) {
+									if ok, _ := c.pureOnPaths(cal); ok {
+										continue
+									}
+								}
 								// which value is handed to the callee: the range key, the range value, or something else
 								onWhat := ""
 								if cc.IsInvoke() {
@@ -631,13 +661,45 @@ func valueSortedBeforeRead(a, la *FnA, phi ssa.Value, outside []ssa.Instruction,
 			}
 		}
 	}
+	// … or handed to a helper of the module that sorts the slice it is given (stableSortBy(items, key))
+	var innerSort ssa.CallInstruction
+	if sortCall == nil {
+		for _, r := range outside {
+			ci, ok := r.(ssa.CallInstruction)
+			if os.Getenv("JENLINT_DEBUG") != "" {
+				fmt.Fprintf(os.Stderr, "sorted? use %T %v call=%v\n", r, r, ok)
+			}
+			if !ok {
+				continue
+			}
+			sc := ci.Common().StaticCallee()
+			if os.Getenv("JENLINT_DEBUG") != "" {
+				fmt.Fprintf(os.Stderr, "   callee %v inModule %v\n", sc, sc != nil && a.c.inModule(sc))
+			}
+			if sc == nil || !a.c.inModule(sc) || sc.Blocks == nil {
+				continue
+			}
+			for k, arg := range callArgs(ci.Common()) {
+				if stripConv(arg) != ssa.Value(phi) {
+					continue
+				}
+				if in := helperSorts(a.c, sc, k); in != nil {
+					sortCall, innerSort = r, in
+				}
+			}
+		}
+	}
 	if sortCall == nil {
 		return false, "the collected slice is never sorted: its order is the map's iteration order"
 	}
-	if ok, why := sortOrderOK(a.c, sortCall.(ssa.CallInstruction)); !ok {
+	judged := sortCall.(ssa.CallInstruction)
+	if innerSort != nil {
+		judged = innerSort
+	}
+	if ok, why := sortOrderOK(a.c, judged); !ok {
 		return false, "sorted, but not by a recognisable total order (" + why + "): the result may still depend on the map's iteration order"
 	}
-	if ok, why := uniqueSortKey(la, ml, sortCall.(ssa.CallInstruction)); !ok {
+	if ok, why := uniqueSortKey(la, ml, judged); !ok {
 		return false, "sorted by a key two entries may share (" + why + "): entries that tie keep the map's iteration order"
 	}
 	for _, r := range outside {
@@ -694,13 +756,40 @@ func cellSortedBeforeRead(a *FnA, cell *ssa.Alloc, ml *mapLoop) (bool, string) {
 			}
 		}
 	}
+	// … or handed to a helper of the module that sorts the slice it is given
+	var innerSort ssa.CallInstruction
+	if sortCall == nil {
+		for _, l := range loads {
+			for _, r := range nonDebugRefs(l) {
+				ci, ok := r.(ssa.CallInstruction)
+				if !ok {
+					continue
+				}
+				sc := ci.Common().StaticCallee()
+				if sc == nil || !a.c.inModule(sc) || sc.Blocks == nil {
+					continue
+				}
+				for k, arg := range callArgs(ci.Common()) {
+					if stripConv(arg) == ssa.Value(l) {
+						if in := helperSorts(a.c, sc, k); in != nil {
+							sortCall, innerSort = ci, in
+						}
+					}
+				}
+			}
+		}
+	}
 	if sortCall == nil {
 		return false, "the collected slice is never sorted: its order is the map's iteration order"
 	}
-	if ok, why := sortOrderOK(a.c, sortCall); !ok {
+	judgedC := sortCall
+	if innerSort != nil {
+		judgedC = innerSort
+	}
+	if ok, why := sortOrderOK(a.c, judgedC); !ok {
 		return false, "sorted, but not by a recognisable total order (" + why + "): the result may still depend on the map's iteration order"
 	}
-	if ok, why := uniqueSortKey(a, ml, sortCall); !ok {
+	if ok, why := uniqueSortKey(a, ml, judgedC); !ok {
 		return false, "sorted by a key two entries may share (" + why + "): entries that tie keep the map's iteration order"
 	}
 	for _, l := range loads {
@@ -872,6 +961,14 @@ func sortField(c *Ctx, ci ssa.CallInstruction) (string, bool) {
 			return fieldName(y.X.Type(), y.Field), true
 		case *ssa.IndexAddr, *ssa.Index, *ssa.Parameter:
 			return "", true
+		case *ssa.Call:
+			if arg, fld, ok := projectionCall(c, less, y); ok {
+				if fld != "" {
+					return fld, true
+				}
+				x = arg
+				continue
+			}
 		}
 		break
 	}
@@ -898,6 +995,9 @@ func derivedSortKey(c *Ctx, ci ssa.CallInstruction) string {
 	cx, okx := bo.X.(*ssa.Call)
 	cy, oky := bo.Y.(*ssa.Call)
 	if !okx || !oky {
+		return ""
+	}
+	if _, _, isProj := projectionCall(c, less, cx); isProj {
 		return ""
 	}
 	fx, fy := cx.Call.StaticCallee(), cy.Call.StaticCallee()
@@ -1097,6 +1197,18 @@ func comparedFields(c *Ctx, less *ssa.Function) (fields []string, identity bool)
 			case *ssa.IndexAddr, *ssa.Index, *ssa.Parameter:
 				identity = true
 				return
+			case *ssa.Call:
+				if arg, fld, ok := projectionCall(c, less, y); ok {
+					if fld != "" {
+						if !seen[fld] {
+							seen[fld] = true
+							fields = append(fields, fld)
+						}
+						return
+					}
+					x = arg
+					continue
+				}
 			}
 			return
 		}
@@ -1157,6 +1269,10 @@ func ascendingNaturalOrder(c *Ctx, ci ssa.CallInstruction) (bool, string) {
 					return i - (n - 2), i >= n-2 // the last two parameters are i, j (a method has the receiver first)
 				}
 			}
+		case *ssa.Call:
+			if arg, _, ok := projectionCall(c, less, y); ok {
+				return side(arg, depth+1)
+			}
 		}
 		return 0, false
 	}
@@ -1199,4 +1315,148 @@ func ascendingNaturalOrder(c *Ctx, ci ssa.CallInstruction) (bool, string) {
 		return false, "no ordering comparison of the two elements found in the comparator"
 	}
 	return true, ""
+}
+
+// projectionCall: v is a call, in fn, of a function value that can only be module functions each of
+// which returns one and the same plain field of its single argument (or the argument itself): a key
+// function handed to a sorting helper. Returns the argument and the field ("" for the argument).
+func projectionCall(c *Ctx, fn *ssa.Function, v ssa.Value) (ssa.Value, string, bool) {
+	call, ok := v.(*ssa.Call)
+	if !ok || call.Call.IsInvoke() || len(call.Call.Args) != 1 {
+		return nil, "", false
+	}
+	var targets []*ssa.Function
+	if sc := call.Call.StaticCallee(); sc != nil {
+		if !c.inModule(sc) || sc.Blocks == nil {
+			return nil, "", false
+		}
+		targets = []*ssa.Function{sc}
+	} else {
+		ts, ok := c.CG().resolveFuncValue(fn, call.Call.Value, 0, map[ssa.Value]bool{})
+		if !ok || len(ts) == 0 {
+			return nil, "", false
+		}
+		targets = ts
+	}
+	field, set := "", false
+	for _, t := range targets {
+		f, ok := projectionOf(t)
+		if !ok || (set && f != field) {
+			return nil, "", false
+		}
+		field, set = f, true
+	}
+	return call.Call.Args[0], field, set
+}
+
+// projectionOf: the function returns a plain field of its only parameter, or the parameter.
+func projectionOf(f *ssa.Function) (string, bool) {
+	if f == nil || len(f.Blocks) != 1 || len(f.Params) != 1 {
+		return "", false
+	}
+	var ret *ssa.Return
+	for _, in := range f.Blocks[0].Instrs {
+		if r, ok := in.(*ssa.Return); ok {
+			ret = r
+		}
+	}
+	if ret == nil || len(ret.Results) != 1 {
+		return "", false
+	}
+	v := ret.Results[0]
+	for {
+		switch x := v.(type) {
+		case *ssa.Parameter:
+			if x == f.Params[0] {
+				return "", true
+			}
+			return "", false
+		case *ssa.Field:
+			if p, ok := x.X.(*ssa.Parameter); ok && p == f.Params[0] {
+				return fieldName(x.X.Type(), x.Field), true
+			}
+			return "", false
+		case *ssa.UnOp:
+			if x.Op != token.MUL {
+				return "", false
+			}
+			if fa, ok := x.X.(*ssa.FieldAddr); ok {
+				if p, ok := fa.X.(*ssa.Parameter); ok && p == f.Params[0] {
+					return fieldName(fa.X.Type(), fa.Field), true
+				}
+				// a value parameter spilled to a local: *(&local).f where local holds the parameter
+				if al, ok := fa.X.(*ssa.Alloc); ok && al.Referrers() != nil {
+					for _, r := range *al.Referrers() {
+						if st, ok := r.(*ssa.Store); ok && st.Addr == ssa.Value(al) && st.Val == ssa.Value(f.Params[0]) {
+							return fieldName(fa.X.Type(), fa.Field), true
+						}
+					}
+				}
+			}
+			return "", false
+		case *ssa.ChangeType:
+			v = x.X
+			continue
+		}
+		return "", false
+	}
+}
+
+// helperSorts: the module function sorts the slice it receives as parameter k: a sort call on that
+// parameter lies on every path to a return. Returns that sort call.
+func helperSorts(c *Ctx, f *ssa.Function, k int) ssa.CallInstruction {
+	if k >= len(f.Params) {
+		return nil
+	}
+	a := c.FA(f)
+	for _, ci := range a.calls() {
+		if os.Getenv("JENLINT_DEBUG") != "" {
+			fmt.Fprintf(os.Stderr, "   helperSorts %s call %v sort=%v\n", fname(f), ci, isSortCall(ci))
+		}
+		if !isSortCall(ci) || len(ci.Common().Args) == 0 {
+			continue
+		}
+		arg := stripConv(ci.Common().Args[0])
+		if mi, ok := arg.(*ssa.MakeInterface); ok {
+			arg = stripConv(mi.X)
+		}
+		// a parameter captured by the comparator lives in a cell: *cell where cell holds the parameter
+		if ld, ok := arg.(*ssa.UnOp); ok && ld.Op == token.MUL {
+			if al, ok := ld.X.(*ssa.Alloc); ok && al.Referrers() != nil {
+				nst := 0
+				var stored ssa.Value
+				for _, r := range *al.Referrers() {
+					if st, ok := r.(*ssa.Store); ok && st.Addr == ssa.Value(al) {
+						nst++
+						stored = st.Val
+					}
+				}
+				if nst == 1 {
+					arg = stored
+				}
+			}
+		}
+		if arg != ssa.Value(f.Params[k]) {
+			continue
+		}
+		dom := true
+		for _, r := range a.returns() {
+			if !(ci.Block() == r.Block() || ci.Block().Dominates(r.Block())) {
+				dom = false
+			}
+		}
+		if dom {
+			return ci
+		}
+	}
+	return nil
+}
+
+func (c *Ctx) isNullImpl(f *ssa.Function) bool {
+	for _, g := range c.codeImpls(c.nullName()) {
+		if g == f {
+			return true
+		}
+	}
+	return false
 }
